@@ -787,8 +787,11 @@ class CSSStyleSheet(cssutils.stylesheets.StyleSheet):
             ):
                 # no doublettes
                 self._cssRules.insert(index, rule)
+                rule._parentStyleSheet = self
                 if _clean:
+                    # may remove rules (even the new one) again
                     self._cleanNamespaces()
+            return index
 
         # @variables
         elif rule.type == rule.VARIABLES_RULE:
